@@ -192,6 +192,9 @@ fn gen_chain(rng: &mut StdRng, abs: &mut Abs, cfg: &Cfg, e: &mut Emit, boost: u6
     // abandoned branch): the agreement-based monitors apply to those; the other half is adversarial beyond it
     let faithful = rng.gen_bool(0.5);
     if faithful { e.stat("chain:faithful", 1); }
+    // sometimes one batch (id 14, outside the random pool) is shared by every block from some point on and stays missing until the
+    // very end: each of these blocks must be parked on it - several parked blocks waiting for the SAME batch
+    let shared_from: Option<usize> = if rng.gen_bool(0.15) { e.stat("shared_missing_batch", 1); Some(rng.gen_range(0, len)) } else { None };
     for _ in 0..len {
         let gap = if rng.gen_bool(0.35) { rng.gen_range(1, 4u64) } else { 0 };
         round += 1 + gap;
@@ -213,7 +216,9 @@ fn gen_chain(rng: &mut StdRng, abs: &mut Abs, cfg: &Cfg, e: &mut Emit, boost: u6
             let tcr = if rng.gen_bool(0.1) { e.stat("tc_wrong_round", 1); round.saturating_sub(2) } else { round - 1 };
             Some(abs.mk_tc(tcr, &hqs))
         } else { None };
-        let b = abs.mk_block(qc, tc, round, rand_payload(rng));
+        let mut pl0 = rand_payload(rng);
+        if let Some(j) = shared_from { if blocks.len() >= j { pl0.push(batch_digest(14)); } }
+        let b = abs.mk_block(qc, tc, round, pl0);
         blocks.push(b.clone());
         if rng.gen_bool(0.12) { // an equivocating leader: a second block for the same round and parent
             e.stat("fork", 1);
@@ -234,7 +239,7 @@ fn gen_chain(rng: &mut StdRng, abs: &mut Abs, cfg: &Cfg, e: &mut Emit, boost: u6
         // batches: mostly available before the proposal, sometimes after (payload parked), sometimes never
         let pl: Vec<u8> = blocks[i].payload.iter().filter_map(batch_id).collect();
         let mut late: Vec<u8> = vec![];
-        for k in pl { if have.contains(&k) { continue; } let x: f64 = rng.gen(); if x < 0.6 { evs.push(Ev::Batch(k)); have.push(k); } else if x < 0.9 { late.push(k); } else { e.stat("batch_never", 1); } }
+        for k in pl { if have.contains(&k) || k == 14 { continue; } let x: f64 = rng.gen(); if x < 0.6 { evs.push(Ev::Batch(k)); have.push(k); } else if x < 0.9 { late.push(k); } else { e.stat("batch_never", 1); } }
         // sometimes the TC a block carries reaches the node on its own first (the node then enters the round with its old high QC)
         let tc_first = blocks[i].tc.is_some() && rng.gen_bool(0.35);
         if tc_first { e.stat("tc_before_proposal", 1); evs.push(Ev::TC(blocks[i].tc.clone().unwrap())); }
@@ -260,6 +265,7 @@ fn gen_chain(rng: &mut StdRng, abs: &mut Abs, cfg: &Cfg, e: &mut Emit, boost: u6
         if rng.gen_bool(0.15) && !have.is_empty() { let k = have[rng.gen_range(0, have.len())]; evs.push(Ev::Dig(k)); }
     }
     for _ in 0..4 { evs.push(Ev::Loop); }
+    if shared_from.is_some() && rng.gen_bool(0.5) { evs.push(Ev::Batch(14)); evs.push(Ev::LoopAll); }
     evs
 }
 
@@ -592,7 +598,7 @@ fn main() {
     let workers: Vec<std::thread::JoinHandle<Emit>> = (0..shards).map(|sh| {
         let list = list.clone(); let dbroot = dbroot.clone(); let seen = seen.clone();
         std::thread::Builder::new().stack_size(64 << 20).spawn(move || {
-            let mut emit = Emit::new("GTac Node Corr Monitors");
+            let mut emit = Emit::new("GTac Node Corr Monitors MonitorsC19");
             for (k, script) in list {
                 if k % shards != sh { continue; }
                 if let Some(only) = only { if only != k { continue; } }
@@ -607,7 +613,8 @@ fn main() {
                 if out.nontrivial && seen.lock().unwrap().insert(out.evs.join(";")) { e.stat("distinct_nontrivial", 1); }
                 if ADMISSIBLE.with(|c| c.get()) { e.stat("admissible (within the fault model)", 1); }
                 let c06 = CLEAN_LEADER.with(|c| c.get());
-                let verdict = match c06 { Some(r) => format!("step_verdict cmt {} evs obs ++ [b2n (mon_c06_make obs {})]", cfg.me, r), None => format!("step_verdict cmt {} evs obs ++ [1]", cfg.me) };
+                let c19c = "[b2n (mon_c19_complete cmt evs obs); b2n (mon_c19_tc_complete cmt evs obs); c19_complete_fired cmt evs obs + c19_tc_complete_fired cmt evs obs]";
+                let verdict = match c06 { Some(r) => format!("step_verdict cmt {} evs obs ++ [b2n (mon_c06_make obs {})] ++ {}", cfg.me, r, c19c), None => format!("step_verdict cmt {} evs obs ++ [1] ++ {}", cfg.me, c19c) };
                 e.case(k, &defs, &verdict, json!({"case": k, "script": script, "committee_stakes": cfg.stakes, "me": cfg.me, "admissible": ADMISSIBLE.with(|c| c.get()), "events": out.human, "messages_hex": out.hexmsgs}));
             }
             emit
